@@ -154,6 +154,29 @@ theorem seekConst_stale_hint_counterexample :
   revert this
   decide
 
+/-- C01.3 (fix 42015c5) A WRONG hint whose value differs from the length of the block's FIRST record is harmless:
+`unpackRawCsg` measures the first record by its own encoding, drops the hint and reads every record's length from
+the record — the shortcut then returns exactly what the forward scan returns, for every column of well-formed
+values, every usable `c` and every index.  (What remains is `seekConst_stale_hint_counterexample`: a wrong hint
+that happens to be the length of the first record.) -/
+theorem seekConst_wrong_hint_detected_at_first_record (vs : List Val) (c i : Nat) (hc : 0 < c) (hc2 : c ≠ inconsistent)
+    (hwf : ∀ v ∈ vs, wf v) (hi : i < vs.length) (hne : (encTLV (vs[0]'(by omega))).length ≠ c) :
+    seekConst c (encCol vs) i = seek (encCol vs) i ∧ seekConst c (encCol vs) i = some (encTLV vs[i]) := by
+  have hl := Lemmas.C01.lenOk_scan vs inconsistent (by simp) hwf
+  obtain ⟨st, hinit, g⟩ := Lemmas.C01.init_good_fallback ⟨hc, hc2⟩ hwf (by omega) hne
+  obtain ⟨st', hr, _, _⟩ := Lemmas.C01.readRecord_good hl g i hi
+  have h2 : seekConst c (encCol vs) i = some (encTLV vs[i]) := by
+    unfold seekConst
+    rw [hinit]
+    simp only [hr]
+    simp [hi]
+  exact ⟨by rw [h2, seek_encCol vs i hi hwf], h2⟩
+
+/-- before fix 42015c5 such a hint was used as it came: the shortcut of that time returns bytes that are not the
+record (hint 5 on two 9-byte numbers) -/
+example : seekConstOld 5 (encCol [.num .i64 1, .num .i64 2]) 1 ≠ seek (encCol [.num .i64 1, .num .i64 2]) 1 ∧
+    seekConst 5 (encCol [.num .i64 1, .num .i64 2]) 1 = seek (encCol [.num .i64 1, .num .i64 2]) 1 := by decide
+
 /-- what the writer's per-segment size says: a consistent size `c` is only ever reported when the column
 existed from the segment's first record and every record appended had size `c` -/
 theorem seenSize_consistent (firstRec : Nat) (sizes : List Nat) (c : Nat) (hc : c ≠ inconsistent)
@@ -430,15 +453,18 @@ records of equal or different lengths — EVERY block `j` in which the column oc
 writer as exactly one record per event of that block (`stored`: the values as filled, or their type consolidation
 when the block was rewritten at its flush), and the raw reader, given that block and the record length the segment
 FINALLY advertises, answers ANY sequence of record seeks with exactly the record of the event asked for. -/
-def SegmentRoundtrip (w : Nat → List (List (Option Val)) → SegSt) : Prop :=
+def SegmentRoundtripWith (init : Bytes → Nat → Res Rd) (w : Nat → List (List (Option Val)) → SegSt) : Prop :=
   ∀ (lim : Nat) (seg : List (List (Option Val))), (∀ evs ∈ seg, ∀ v ∈ evs, ∀ x, v = some x → wf x) →
     ∀ (j : Nat) (hj : j < seg.length), (∃ v ∈ seg[j], v.isSome) →
     ∀ (ns : List Nat), (∀ n ∈ ns, n < seg[j].length) →
       ∃ blk, (w lim seg).blocks[j]? = some blk ∧
         (storedVals blk.mixed (seg[j].map getB)).length = seg[j].length ∧
         blk.buf = encCol (storedVals blk.mixed (seg[j].map getB)) ∧
-        ∃ rd, Rd.init blk.buf (w lim seg).hint = .ok rd ∧
+        ∃ rd, init blk.buf (w lim seg).hint = .ok rd ∧
           rd.readMany ns = ns.map (fun n => .ok (encTLV ((storedVals blk.mixed (seg[j].map getB))[n]!)))
+
+/-- … with the block reader as it is (`Rd.init` = `unpackRawCsg` since fix 42015c5) -/
+def SegmentRoundtrip (w : Nat → List (List (Option Val)) → SegSt) : Prop := SegmentRoundtripWith Rd.init w
 
 /-- C01.6 Multi-block round trip of a column (writer as it is after fix b7f8683): see `SegmentRoundtrip`.
 Composition of C01.1–3 (`readMany`/`seekConst` lemmas) with an invariant over ALL events and flushes of the
@@ -524,8 +550,11 @@ back-fill records to AllSeenColumnSizes). Witness: cardinality limit 2 (so that 
 encoded), block 1 = [{x:2}], block 2 = [{}, {x:0}]. Block 1 gives x the record length 9; in block 2 x is new to
 the BLOCK at block record 1, one back-fill byte is written for record 0 without telling the segment, the 9-byte
 number agrees with the advertised 9 — the segment advertises 9, and record 1 of block 2 is sought at offset 9 of
-a 10-byte block. On the real code: `x<3` on the rotated segment missed the event with x=0. -/
-theorem segment_roundtrip_old_counterexample : ¬ SegmentRoundtrip writeSegOld := by
+a 10-byte block. On the real code: `x<3` on the rotated segment missed the event with x=0.
+(Stated for the block reader of that time, `Rd.initOld`. The reader as it is since fix 42015c5 checks the advertised
+length against the block's first record — here the 1-byte back-fill record — drops it and finds the record: see
+the example below. A block that the old writer mis-advertised always STARTS with such a back-fill record.) -/
+theorem segment_roundtrip_old_counterexample : ¬ SegmentRoundtripWith Rd.initOld writeSegOld := by
   intro h
   obtain ⟨blk, h1, _, _, rd, h2, h3⟩ := h 2 [[some (.num .i64 2)], [none, some (.num .i64 0)]]
     (by intro evs he v hv x hx; subst hx
@@ -538,13 +567,18 @@ theorem segment_roundtrip_old_counterexample : ¬ SegmentRoundtrip writeSegOld :
   rw [hb] at h1
   cases h1
   rw [hh] at h2
-  have hinit : Rd.init [19, 16, 0, 0, 0, 0, 0, 0, 0, 0] 9
+  have hinit : Rd.initOld [19, 16, 0, 0, 0, 0, 0, 0, 0, 0] 9
       = .ok { buf := [19, 16, 0, 0, 0, 0, 0, 0, 0, 0], constLen := 9, recNum := 0, off := 0, recLen := 9 } := by
     decide
   rw [hinit] at h2
   cases h2
   revert h3
   decide
+
+/-- the same witness with the reader as it is now: the stale length 9 of the old writer is dropped at the first
+record (1 byte) and record 1 of block 2 is found -/
+example : seekConst 9 [19, 16, 0, 0, 0, 0, 0, 0, 0, 0] 1 = some (encTLV (.num .i64 0)) ∧
+    seekConstOld 9 [19, 16, 0, 0, 0, 0, 0, 0, 0, 0] 1 ≠ some (encTLV (.num .i64 0)) := by decide
 
 /-- the fixed writer on the same witness: the segment advertises INCONSISTENT and record 1 of block 2 is found -/
 example : (writeSeg 2 [[some (.num .i64 2)], [none, some (.num .i64 0)]]).hint = inconsistent ∧
